@@ -30,10 +30,12 @@ HINT = """        proof {
 """
 
 
-def method(name, ensures, extra=(), inserts=()):
-    ensures = ensures.replace("§V§", "§p2§" if name in ("deserialize_unit_struct", "deserialize_newtype_struct") else "§p1§")
+def method(name, ensures, extra=(), inserts=(), oblp="C03.V.dekind."):
+    vpos = {"deserialize_unit_struct": 2, "deserialize_newtype_struct": 2, "deserialize_tuple": 2, "deserialize_tuple_struct": 3,
+            "deserialize_struct": 3, "deserialize_enum": 3}.get(name, 1)
+    ensures = ensures.replace("§V§", "§p%d§" % vpos)
     return dict(inserts=list(inserts), kind="fn", file=F, within=IMPL_DE, name=name, qual="postcard::de::deserializer::<impl de::Deserializer for &mut Deserializer<F>>::" + name,
-                rewrites=[RECV, NAME] + list(extra), sig="        ensures\n" + ensures + "   // @obl:C03.V.dekind." + name, obls=["C03.V.dekind." + name])
+                rewrites=[RECV, NAME] + list(extra), sig="        ensures\n" + ensures + "   // @obl:" + oblp + name, obls=[oblp + name])
 
 
 def varint_kind(name, w, val):
@@ -52,6 +54,16 @@ LEN_PREFIXED = """            match dec_u64(%(o)s) {
                 DecRes::End => r == %(e1)s,
                 DecRes::Bad => r == %(e2)s,
             },"""
+
+NEXT_SIG = """        ensures
+            old(self).len == 0 ==> r == Ok(None) && final(self).len == 0
+                                   && final(self).deserializer.flavor.rem() == old(self).deserializer.flavor.rem(),
+            old(self).len > 0 ==> final(self).len == old(self).len - 1
+                                  && final(self).deserializer.flavor.rem() == §p1§.on_de(old(self).deserializer.flavor.rem()).1
+                                  && match §p1§.on_de(old(self).deserializer.flavor.rem()).0 {
+                                         Ok(v) => r == Ok(Some(v)),
+                                         Err(e) => r == Err(e),
+                                     },   // @obl:%(obl)s"""
 
 VIS_SCALARS = ["bool", "i8", "i16", "i32", "i64", "i128", "u8", "u16", "u32", "u64", "u128"]
 
@@ -92,6 +104,24 @@ pub trait Visitor<'de>: Sized {
     spec fn on_newtype(self, rem: Seq<u8>) -> (Result<Self::Value>, Seq<u8>);
     fn visit_newtype_struct<F: Flavor<'de>>(self, d: &mut Deserializer<'de, F>) -> (r: Result<Self::Value>)
         ensures (r, final(d).flavor.rem()) == self.on_newtype(old(d).flavor.rem());
+    // compound kinds: the visitor is handed an accessor announcing `len` elements over the rest of the stream
+    spec fn on_seq(self, len: usize, rem: Seq<u8>) -> (Result<Self::Value>, Seq<u8>);
+    fn visit_seq<'a, F: Flavor<'de>>(self, a: SeqAccess<'a, 'de, F>) -> (r: Result<Self::Value>)
+        ensures (r, final(a.deserializer).flavor.rem()) == self.on_seq(a.len, old(a.deserializer).flavor.rem());
+    spec fn on_map(self, len: usize, rem: Seq<u8>) -> (Result<Self::Value>, Seq<u8>);
+    fn visit_map<'a, F: Flavor<'de>>(self, a: MapAccess<'a, 'de, F>) -> (r: Result<Self::Value>)
+        ensures (r, final(a.deserializer).flavor.rem()) == self.on_map(a.len, old(a.deserializer).flavor.rem());
+    spec fn on_enum(self, rem: Seq<u8>) -> (Result<Self::Value>, Seq<u8>);
+    fn visit_enum<F: Flavor<'de>>(self, d: &mut Deserializer<'de, F>) -> (r: Result<Self::Value>)
+        ensures (r, final(d).flavor.rem()) == self.on_enum(old(d).flavor.rem());
+}
+
+// ANY element / key / value seed: its effect is a function of the stream it is run on
+pub trait DeserializeSeed<'de>: Sized {
+    type Value;
+    spec fn on_de(self, rem: Seq<u8>) -> (Result<Self::Value>, Seq<u8>);
+    fn deserialize<F: Flavor<'de>>(self, d: &mut Deserializer<'de, F>) -> (r: Result<Self::Value>)
+        ensures (r, final(d).flavor.rem()) == self.on_de(old(d).flavor.rem());
 }
 
 pub open spec fn final_rem_ok(orig: Seq<u8>, now: Seq<u8>, i: int) -> bool {
@@ -168,6 +198,43 @@ UNIT = dict(
         method("deserialize_unit", "            r == §V§.on_unit() && %s == %s," % (NOW, ORIG)),
         method("deserialize_unit_struct", "            r == §V§.on_unit() && %s == %s," % (NOW, ORIG)),
         method("deserialize_newtype_struct", "            (r, %s) == §V§.on_newtype(%s)," % (NOW, ORIG)),
+        method("deserialize_seq", """            match dec_u64(%(o)s) {
+                DecRes::Ok(n, used) => (r, %(n)s) == §V§.on_seq(n as usize, %(o)s.subrange(used, %(o)s.len() as int)),
+                DecRes::End => r == %(e1)s,
+                DecRes::Bad => r == %(e2)s,
+            },""" % dict(o=ORIG, n=NOW, e1=ERR % "DeserializeUnexpectedEnd", e2=ERR % "DeserializeBadVarint")),
+        method("deserialize_map", """            match dec_u64(%(o)s) {
+                DecRes::Ok(n, used) => (r, %(n)s) == §V§.on_map(n as usize, %(o)s.subrange(used, %(o)s.len() as int)),
+                DecRes::End => r == %(e1)s,
+                DecRes::Bad => r == %(e2)s,
+            },""" % dict(o=ORIG, n=NOW, e1=ERR % "DeserializeUnexpectedEnd", e2=ERR % "DeserializeBadVarint")),
+        method("deserialize_tuple", "            (r, %s) == §V§.on_seq(§p1§, %s)," % (NOW, ORIG)),
+        method("deserialize_tuple_struct", "            (r, %s) == §V§.on_seq(§p2§, %s)," % (NOW, ORIG)),
+        method("deserialize_struct", "            (r, %s) == §V§.on_seq(§p2§@.len() as usize, %s)," % (NOW, ORIG),
+               extra=[(r"fields: &'static \[&'static str\]", "fields: &[&str]", 1, 1)]),
+        method("deserialize_enum", "            (r, %s) == §V§.on_enum(%s)," % (NOW, ORIG),
+               extra=[(r"_variants: &'static \[&'static str\]", "_variants: &[&str]", 1, 1)]),
+        method("deserialize_any", "            r is Err,", oblp="C04.V.dekind."),
+        method("deserialize_identifier", "            r is Err,", oblp="C04.V.dekind."),
+        method("deserialize_ignored_any", "            r is Err,", oblp="C04.V.dekind."),
         dict(kind="raw", name="<impl-close>", text="}\n"),
+        # the element accessors handed to the visitor: announce `len`, run each seed on the stream, count down
+        dict(kind="struct", file=F, name="SeqAccess", rewrites=[(r"(\s)deserializer:", r"\1pub deserializer:", 1, 1), (r"(\s)len:", r"\1pub len:", 1, 1)], prefix="pub"),
+        dict(kind="struct", file=F, name="MapAccess", rewrites=[(r"(\s)deserializer:", r"\1pub deserializer:", 1, 1), (r"(\s)len:", r"\1pub len:", 1, 1)], prefix="pub"),
+        dict(kind="raw", name="<seqaccess-impl-open>", text="impl<'a, 'b: 'a, F: Flavor<'b>> SeqAccess<'a, 'b, F> {\n"),
+        dict(kind="fn", file=F, within=[r"^impl<'a, 'b: 'a, F: Flavor<'b>> serde::de::SeqAccess<'b> for SeqAccess<'a, 'b, F>$"], name="next_element_seed",
+             qual="postcard::de::deserializer::<impl serde::de::SeqAccess for SeqAccess<F>>::next_element_seed",
+             sig=NEXT_SIG % dict(obl="C03.V.dekind.seq_next_element_seed"), obls=["C03.V.dekind.seq_next_element_seed"]),
+        dict(kind="raw", name="<seqaccess-impl-close>", text="}\n"),
+        dict(kind="raw", name="<mapaccess-impl-open>", text="impl<'a, 'b: 'a, F: Flavor<'b>> MapAccess<'a, 'b, F> {\n"),
+        dict(kind="fn", file=F, within=[r"^impl<'a, 'b: 'a, F: Flavor<'b>> serde::de::MapAccess<'b> for MapAccess<'a, 'b, F>$"], name="next_key_seed",
+             qual="postcard::de::deserializer::<impl serde::de::MapAccess for MapAccess<F>>::next_key_seed",
+             sig=NEXT_SIG % dict(obl="C03.V.dekind.map_next_key_seed"), obls=["C03.V.dekind.map_next_key_seed"]),
+        dict(kind="fn", file=F, within=[r"^impl<'a, 'b: 'a, F: Flavor<'b>> serde::de::MapAccess<'b> for MapAccess<'a, 'b, F>$"], name="next_value_seed",
+             qual="postcard::de::deserializer::<impl serde::de::MapAccess for MapAccess<F>>::next_value_seed",
+             sig="""        ensures
+            (r, final(self).deserializer.flavor.rem()) == §p1§.on_de(old(self).deserializer.flavor.rem()) && final(self).len == old(self).len,   // @obl:C03.V.dekind.map_next_value_seed""",
+             obls=["C03.V.dekind.map_next_value_seed"]),
+        dict(kind="raw", name="<mapaccess-impl-close>", text="}\n"),
     ],
 )
